@@ -12,6 +12,6 @@ CONSTANTS
  MaxS = 2
  MaxP = 2
  CancelTimes <- CT_m1_0_2_3_50
- LateSets <- SomeLate
+ LateSets <- NoLate
 INVARIANTS Safety BusyOK NoStale
 CHECK_DEADLOCK FALSE
